@@ -597,9 +597,15 @@ def products(ctx, world):
         r, syms, m, fn, sc = eval_function(world, DO, ref0.name)
     r = unseq(r) if r is not None else None
     ok = False
-    fp, xp = syms["#0"], syms["#1"]
+    fp, xp = syms.get("#0"), syms.get("#1")
     gp = None
     clo, pre, prekw = ev.as_closure(r) if r is not None else (None, None, None)
+    if fp is None or xp is None:
+        # mixed-mode form: make_ggnvp(f, g, f_argnum) returns a function of (*args, **kwargs) built from the n-ary
+        # operators: f_vjp, f_x = make_vjp(f, f_argnum)(*args, **kw); g_hvp = make_hvp(g)(f_x)[0];
+        # f_jvp = make_jvp(f, f_argnum)(*args, **kw); result v -> f_vjp(g_hvp(f_jvp(v)[1])) - all three about the SAME argument
+        ok = _ggnvp_mixed_mode(world, DO)
+        clo = None
     if clo is not None and not pre and not prekw:
         v = T("sym", name="v", role="param")
         body = unseq(expand(ev, ev.apply(clo, [v], {}, []), {"autograd.core.make_vjp", "autograd.core.vspace"}))
@@ -623,6 +629,58 @@ def products(ctx, world):
                         z_ok = z.op == "call" and z.fn.op == "attr" and z.fn.name == "zeros" and is_call_to(z.fn.obj, "autograd.core.vspace") and len(z.fn.obj.args) == 1 and z.fn.obj.args[0].op == "sub" and z.fn.obj.args[0].obj is gmv and z.fn.obj.args[0].idx.value == 1
                         ok = bool(j_ok and z_ok)
     _ok(ctx, "A15.products", "make_ggnvp: f_vjp(g_hvp(f_jvp(v)))", ok, loc_of(m, fn), f"{DO}.make_ggnvp", "the generalised Gauss-Newton product is not J^T H_g J v composed as f_vjp(g_hvp(f_jvp(v)))", "make_ggnvp(f)(x)(v) against the explicit J^T H J v")
+
+
+def _ggnvp_mixed_mode(world, DO):
+    from ..kfun import returned_closure
+
+    ev = world.ev
+    try:
+        clo, top, osy, m, fn, sc = returned_closure(world, DO, "make_ggnvp")
+    except Exception:
+        return False
+    f, g = osy.get("#0"), osy.get("#1")
+    fa = osy.get("#2")
+    if f is None or g is None or fa is None:
+        return False
+    args = T("sym", name="args", role="param", star=True)
+    kw = T("sym", name="kwargs", role="param", dstar=True)
+    KEEPQ = {f"{DO}.make_vjp", f"{DO}.make_jvp", f"{DO}.make_hvp", f"{DO}.grad", "autograd.core.make_vjp", "autograd.core.make_jvp", "autograd.core.vspace"}
+    lvl = unseq(expand(ev, ev.apply(clo, [T("star", x=args)], {}, [kw]), KEEPQ))
+    c2, p2, k2 = ev.as_closure(lvl) if lvl is not None else (None, None, None)
+    if c2 is None or p2 or k2:
+        return False
+    v = T("sym", name="v", role="param")
+    body = unseq(expand(ev, ev.apply(c2, [v], {}, []), KEEPQ))
+
+    def nary(t, opname):
+        """(argnum term or None) if t == <DO.opname>(f, argnum?)(*args, **kwargs)"""
+        if not (t.op == "call" and len(t.args) == 1 and t.args[0].op == "star" and t.args[0].x is args and len(t.dstar) == 1 and t.dstar[0] is kw and not t.kw):
+            return False, None
+        mk = t.fn
+        if not (mk.op == "call" and mk.fn.op == "ref" and mk.fn.ref.qual == f"{DO}.{opname}" and mk.args and mk.args[0] is f):
+            return False, None
+        an = mk.args[1] if len(mk.args) > 1 else mk.kw.get("argnum")
+        return True, an
+
+    comp = lambda t, i: t.op == "sub" and t.idx.op == "const" and t.idx.value == i
+    if not (body.op == "call" and len(body.args) == 1 and not body.kw and comp(body.fn, 0)):
+        return False
+    okv, an_v = nary(body.fn.obj, "make_vjp")
+    if not okv or an_v is not fa:
+        return False
+    fvj = body.fn.obj
+    mid = body.args[0]
+    if not (mid.op == "call" and len(mid.args) == 1 and comp(mid.fn, 0)):
+        return False
+    hv = mid.fn.obj  # make_hvp(g)(f_x)
+    if not (hv.op == "call" and len(hv.args) == 1 and comp(hv.args[0], 1) and hv.args[0].obj is fvj and hv.fn.op == "call" and hv.fn.fn.op == "ref" and hv.fn.fn.ref.qual == f"{DO}.make_hvp" and hv.fn.args and hv.fn.args[0] is g and len(hv.fn.args) == 1 and not hv.fn.kw):
+        return False
+    inner = mid.args[0]
+    if not (comp(inner, 1) and inner.obj.op == "call" and len(inner.obj.args) == 1 and inner.obj.args[0] is v):
+        return False
+    okj, an_j = nary(inner.obj.fn, "make_jvp")
+    return bool(okj and an_j is fa)
 
 
 # ------------------------------------------------------------------------------------------- layout / squeeze / guard fns
